@@ -243,7 +243,7 @@ class SimSlurm:
         if alt == "fail-all":
             self.sticky_refused.add(rel_script)
         if alt in ("fail", "fail-all") or rel_script in self.sticky_refused or (
-                os.path.basename(script) in w.scen.get("refuse_scripts", ()) and not w.data.get("epoch")):
+                (os.path.basename(script) in w.scen.get("refuse_scripts", ()) or rel_script in w.scen.get("refuse_scripts", ())) and not w.data.get("epoch")):
             # a clean refusal (the scheduler did not accept the job); scripted by the scenario or a fault
             if not self.refused.get(script):
                 self.refused[script] = True
